@@ -9,22 +9,18 @@ import (
 // The guard hypotheses of the known findings (KNOWN_FINDINGS.txt, property C03).  The main
 // generators stay inside them; the recorded failing inputs are replayed from the corpus.
 //
-//		tpl_small       the total size of the template expansion (number of declaration nodes after
-//		                copying every referenced template at every reference site) is <= 50000 (N3).
-//		groups_small    csv2 `child_records` / fixedlength2 `child_envelopes`: their JSON schema is a
-//		                `oneOf` of three alternatives that all recurse into the children, which
-//		                gojsonschema evaluates in time cost(list) = sum over elements of
-//		                3 * (1 + cost(children)); the guard is cost <= 50000 (about 0.3 s) (N4).
-//		js_no_map_set   javascript sources come from the generator's pools without Map / Set results:
-//		                goja's own export of a Map / Set that contains itself overflows the stack (N8).
-//
-//	  csv_rows_small  (failing-reader runs only) old csv: header_row_index / data_row_index <= 10000:
-//	                  jumpTo ignores a non-EOF read error and calls Read again until the line counter
-//	                  reaches the index, so a persistently failing input reader makes the first Read
-//	                  spin for data_row_index iterations (N10).
+//	tpl_small       the total size of the template expansion (number of declaration nodes after
+//	                copying every referenced template at every reference site) is <= 50000 (N3).
+//	groups_small    csv2 `child_records` / fixedlength2 `child_envelopes`: their JSON schema is a
+//	                `oneOf` of three alternatives that all recurse into the children, which
+//	                gojsonschema evaluates in time cost(list) = sum over elements of
+//	                3 * (1 + cost(children)); the guard is cost <= 50000 (about 0.3 s) (N4).
+//	js_no_map_set   javascript sources come from the generator's pools without Map / Set results:
+//	                goja's own export of a Map / Set that contains itself overflows the stack (N8).
 //
 // The guards int_plain, xd_no_null, xpath_plain and js_export_total of the first round are gone:
-// N1, N2, N5, N6, N7 are repaired and the generators exercise those classes.
+// N1, N2, N5, N6, N7 are repaired and the generators exercise those classes; so is N10 (guard
+// csv_rows_small of round 4): failing-reader runs use any header / data row index.
 func guardViolation(tree interface{}) string {
 	if on("groups_small") && groupCost(tree) > 50000 {
 		return "groups_small"
@@ -147,24 +143,4 @@ func groupCost(v interface{}) int64 {
 		return 0
 	}
 	return listCost(fd["records"]) + listCost(fd["envelopes"])
-}
-
-// csvRowsSmall: see csv_rows_small.
-func csvRowsSmall(schema []byte) bool {
-	var v struct {
-		PS struct {
-			F string `json:"file_format_type"`
-		} `json:"parser_settings"`
-		FD struct {
-			H *float64 `json:"header_row_index"`
-			D *float64 `json:"data_row_index"`
-		} `json:"file_declaration"`
-	}
-	if json.Unmarshal(schema, &v) != nil {
-		return true
-	}
-	if v.PS.F != "csv" {
-		return true
-	}
-	return (v.FD.H == nil || *v.FD.H <= 10000) && (v.FD.D == nil || *v.FD.D <= 10000)
 }
